@@ -32,6 +32,56 @@ theorem map_ok_no_gap_partial (s : CMap K V A) (d : Dot A) (k : K) (o : VOp)
   · rw [map_gap_rejected_partial ops toNat s d k o hg] at h; cases h
   · omega
 
+/-- **exact verdict, all states, every value type**: an update is accepted iff its dot skips no counter of the MAP clock, skips no
+counter of the key's ENTRY clock (the empty clock when the key is absent), and the nested value accepts the nested op.  The middle clause is
+the defect F7: on derivable states an entry clock is not contiguous in each actor, so in-order ops are rejected
+(`Witness.map_validate_rejects_in_order_op`); the statement shows that it is the ONLY way a gap-free, nested-valid update is rejected. -/
+theorem map_ok_iff (s : CMap K V A) (d : Dot A) (k : K) (o : VOp) :
+    CMap.validateOp ops toNat s (.up d k o) = .ok () ↔
+      d.counter ≤ s.clock.get d.actor + 1 ∧
+      d.counter ≤ (((s.entries.get? k).getD ⟨∅, ops.default⟩).clock).get d.actor + 1 ∧
+      ops.validateOp ((s.entries.get? k).getD ⟨∅, ops.default⟩).val o = true := by
+  have v1 : ∀ c : VClock A, (c.validateOp d = .ok ()) ↔ d.counter ≤ c.get d.actor + 1 := by
+    intro c; unfold VClock.validateOp; simp only; split
+    · simp only [reduceCtorEq, false_iff]; omega
+    · simp only [true_iff]; omega
+  simp only [CMap.validateOp]
+  cases h1 : s.clock.validateOp d with
+  | error r =>
+    simp only [reduceCtorEq, false_iff]
+    intro ⟨a, _, _⟩
+    have := (v1 s.clock).mpr a
+    rw [h1] at this; cases this
+  | ok u =>
+    have a1 := (v1 s.clock).mp (by rw [h1])
+    simp only
+    cases h2 : (((s.entries.get? k).getD ⟨∅, ops.default⟩).clock).validateOp d with
+    | error r =>
+      simp only [reduceCtorEq, false_iff]
+      intro ⟨_, b, _⟩
+      have := (v1 _).mpr b
+      rw [h2] at this; cases this
+    | ok u2 =>
+      have a2 := (v1 _).mp (by rw [h2])
+      simp only
+      by_cases h3 : ops.validateOp ((s.entries.get? k).getD ⟨∅, ops.default⟩).val o = true
+      · simp only [h3, if_true, true_iff]; exact ⟨a1, a2, trivial⟩
+      · simp only [h3, if_false, reduceCtorEq, false_iff]
+        intro ⟨_, _, c⟩; exact c
+
+/-- in particular: an update of a key the replica does not hold, by an actor whose dot is the next one at MAP level, with a nested op the
+default value accepts, is accepted iff the dot's counter is 1 – i.e. only an actor's very FIRST update can create a key (F7 in one line) -/
+theorem map_new_key_ok_iff (s : CMap K V A) (d : Dot A) (k : K) (o : VOp) (habs : s.entries.get? k = none)
+    (hnext : d.counter = s.clock.get d.actor + 1) (hv : ops.validateOp ops.default o = true) :
+    CMap.validateOp ops toNat s (.up d k o) = .ok () ↔ d.counter ≤ 1 := by
+  rw [map_ok_iff, habs]
+  simp only [Option.getD_none, hv, and_true]
+  have : (∅ : VClock A).get d.actor = 0 := by simp
+  rw [this]
+  constructor
+  · intro h; exact h.2
+  · intro h; exact ⟨by omega, h⟩
+
 end Crdt.C16
 
 namespace Crdt.Witness
